@@ -236,6 +236,16 @@ func (a *Act) dynamicCall(st *State, c *ssa.CallCommon, args []Term, pos token.P
 		}
 	}
 	sig := c.Value.Type().Underlying().(*types.Signature)
+	if ex, ok := c.Value.(*ssa.Extract); ok && ex.Index == 1 {
+		if call, ok := ex.Tuple.(*ssa.Call); ok {
+			if f := call.Call.StaticCallee(); f != nil && f.Pkg != nil && f.Pkg.Pkg.Path() == "context" && strings.HasPrefix(f.Name(), "With") {
+				// the cancel function of a derived context: releases that context only, which
+				// the model does not track (assumption A-TIME covers deadlines and cancellation)
+				tr.usedStubs["context.CancelFunc"] = true
+				return nil
+			}
+		}
+	}
 	tr.havocked["dynamic:"+typeStr(sig)] = true
 	return a.havocCall(st, sig, args, true, pos, "dyn")
 }
